@@ -529,8 +529,10 @@ class EigStub:
                different in magnitude and non-zero ("well separated"), ascending for eigh/eigsh as documented;
     conc mode: calls the real solver, records argument and result."""
 
-    def __init__(self, E):
+    def __init__(self, E, psd=False, trace_gt=None):
         self.E = E
+        self.psd = psd
+        self.trace_gt = trace_gt
         self.calls = []  # dicts: kind, A (cells), k, w, V
 
     def _fresh(self, kind, A, k):
@@ -546,6 +548,20 @@ class EigStub:
         if kind in ("eigh", "eigsh"):
             for j in range(m - 1):
                 E.assume(w[j] < w[j + 1])
+        if self.psd:
+            for j in range(m):
+                E.assume(w[j] >= 0)  # Gram matrices are positive semi-definite
+        if k is None:
+            # a full decomposition preserves the trace
+            tr = 0.0
+            for i in range(n):
+                tr = tr + A[i, i]
+            sw = 0.0
+            for x in w:
+                sw = sw + x
+            E.assume_eq(sw, tr)
+            if self.trace_gt is not None:
+                E.assume(sw > self.trace_gt)
         V = E.reals(f"evec{c}_", (n, m))
         return npenv.obj_array(w), V
 
@@ -577,12 +593,12 @@ class EigStub:
 
 
 @contextlib.contextmanager
-def eig(E):
+def eig(E, psd=False, trace_gt=None):
     """install the eigen-solver stub into the pyttb modules (sym) / wrap the real solvers (conc)"""
     import scipy.linalg
     import scipy.sparse.linalg
     import types
-    stub = EigStub(E)
+    stub = EigStub(E, psd, trace_gt)
     real = dict(eigh=scipy.linalg.eigh, eig=scipy.linalg.eig, eigsh=scipy.sparse.linalg.eigsh, eigs=scipy.sparse.linalg.eigs)
     fake = types.SimpleNamespace(
         linalg=types.SimpleNamespace(eigh=lambda A, **kw: stub._call("eigh", real["eigh"], A, **kw),
@@ -600,3 +616,35 @@ def eig(E):
     finally:
         for m, old in saved:
             m.__dict__["scipy"] = old
+
+
+class NvecsStub:
+    """contract stub one level up: <tensor>.nvecs(n, r) returns a fresh symbolic size x r matrix (orthonormal by
+    contract) in 'sym' mode and the real result in 'conc' mode; every request (tensor cells, n, r) is recorded."""
+
+    def __init__(self, E):
+        self.E = E
+        self.calls = []
+
+
+@contextlib.contextmanager
+def nvecs_stub(E):
+    import pyttb as ttb
+    from . import oracles
+    stub = NvecsStub(E)
+    real = ttb.tensor.nvecs
+
+    def fake(self, n, r, flipsign=True):
+        c = len(stub.calls)
+        if E.sym:
+            V = E.reals(f"nv{c}_", (self.shape[n], int(r)))
+        else:
+            V = real(self, n, r, flipsign)
+        stub.calls.append(dict(cells=oracles.cells(self.data), n=int(n), r=int(r), V=V))
+        return V
+
+    ttb.tensor.nvecs = fake
+    try:
+        yield stub
+    finally:
+        ttb.tensor.nvecs = real
